@@ -63,6 +63,11 @@ def _work(units):
             text = rp.render(ast).replace("{ ", "{ " + deco, 1).replace(" if ", " if " + "/* ( \r */ ", 1).replace(" { return", " /* ) */ { return", 1)
             if rp.classify(text) == ("accept", ast):
                 progcheck.check_prog(acc, ast, [dict(e, u="id7") for e in envs], "op-decorated:" + tag, text=text)
+            if p[2] == "not in":
+                for gap in ("  ", "\t", "\n", " \r\n\t "):
+                    t2 = rp.render(ast).replace("not in", "not" + gap + "in").replace("{", "{\n") + "\n"
+                    if rp.classify(t2) == ("accept", ast):
+                        progcheck.check_prog(acc, ast, [dict(e, u="id7") for e in envs], "op-spaced:" + tag, text=t2)
             ast3 = esh.prog_of(("if", ("not", p), ("ret", (("N", "1"),)), ("elif", ("and", p, ("not", ("not", p))), ("ret", (("P", "1"),)), None)))
             progcheck.check_prog(acc, ast3, [dict(e, u="id7") for e in envs], "op-not:" + tag)
         elif kind == "case":
